@@ -55,7 +55,7 @@ def gen_scn(r):
     body = [r.choice([1, 7, 100, 9000]) for _ in range(r.choice([0, 1, 1, 2, 3]))]
     s = {'overwrite': r.random() < 0.6, 'overwrite_part': r.random() < 0.4,
          'rm_part_on_exc': r.random() < 0.75, 'text_mode': r.random() < 0.4,
-         'file_perms': r.choice([None, None, 0o600, 0o644, 0o755, 0o666, 0o777, 0o400] + SPECIAL_PERMS),
+         'file_perms': r.choice([None, None, 0o600, 0o644, 0o755, 0o666, 0o777, 0o400, 0, 0o200] + SPECIAL_PERMS),
          'dest_mode': r.choice([0o664, 0o664, 0o666, 0o600, 0o777]),
          'umask': r.choice([0, 0o022, 0o077]), 'dest': r.choice(['absent', 'present']),
          'part': r.choice(['absent', 'absent', 'present']), 'writes': body,
